@@ -34,6 +34,10 @@ PROFILE_BOUNDED = S.profile(min_tasks=1, max_tasks=2, horizon=(2, 5), p_no_horiz
 # start-time objectives over optional tasks (an unscheduled task contributes to no objective)
 PROFILE_STARTOBJ = S.profile(min_tasks=2, max_tasks=3, horizon=(2, 5), p_no_horizon=0, p_resources=40, task_constraints=(0, 2), optional_rules=(0, 1), resource_constraints=(0, 0),
                              objectives=(1, 1), only_objectives=["TasksStartLatest", "MinimizeGreatestStartTime"], p_optional=65, p_release=20, p_due=30)
+# weighted sums of two conflicting user indicators, weights 0..3
+PROFILE_WEIGHTS = S.profile(min_tasks=2, max_tasks=3, horizon=(3, 5), p_no_horizon=0, p_resources=30, task_constraints=(0, 2), optional_rules=(0, 0), resource_constraints=(0, 0),
+                            indicators=(2, 3), indicator_types=["FromMathExpression"], objectives=(2, 2), only_objectives=["MinimizeIndicator", "MaximizeIndicator"],
+                            p_optional=10, p_release=20, p_due=20, p_weight_zero=35, p_indicator_bounds=30)
 VALID_FAMILIES = ("T", "W", "TC", "RC", "OPT", "BUF", "FOL")
 
 
@@ -47,7 +51,7 @@ def target_var(h):
 def weights(spec):
     if len(spec["objectives"]) == 1:  # a single objective is optimised as it is; weights only combine several
         return [(spec["objectives"][0], 1)]
-    return [(o, o.get("weight") or 1) for o in spec["objectives"]]
+    return [(o, (1 if o.get("weight") is None else o["weight"])) for o in spec["objectives"]]
 
 
 def kind_of(spec):
@@ -308,6 +312,7 @@ def run_shard(ctx):
     run_hypothesis(ctx, S.spec_with_pins(PROFILE, n_sets=0), prop, max_examples=n)
     run_hypothesis(ctx, S.spec_with_pins(PROFILE_BOUNDED, n_sets=0), prop, max_examples=n)
     run_hypothesis(ctx, S.spec_with_pins(PROFILE_STARTOBJ, n_sets=0), prop, max_examples=n // 2)
+    run_hypothesis(ctx, S.spec_with_pins(PROFILE_WEIGHTS, n_sets=0), prop, max_examples=n // 2)
 
 
 def replay(record):
